@@ -33,6 +33,25 @@ pub fn verif_seed() -> u64 {
 fn exe() -> PathBuf {
     std::env::current_exe().expect("current_exe")
 }
+/// The release-profile build of this binary, when the check script built one.
+fn release_exe() -> Option<PathBuf> {
+    let p = match std::env::var_os("SIM_RELEASE_BIN") {
+        Some(p) => PathBuf::from(p),
+        None => PathBuf::from(format!("{}/target/release/simcheck", verif_root())),
+    };
+    if p.exists() {
+        Some(p)
+    } else {
+        None
+    }
+}
+fn exe_for(release: bool) -> PathBuf {
+    if release && !cfg!(not(debug_assertions)) {
+        release_exe().unwrap_or_else(exe)
+    } else {
+        exe()
+    }
+}
 
 fn work_dir(prop: &str, tier: Tier) -> PathBuf {
     PathBuf::from(format!("{}/work/{prop}-{}-{}", verif_root(), tier.name(), std::process::id()))
@@ -102,7 +121,7 @@ pub fn worker(a: WorkerArgs) -> i32 {
                     }
                     for v in viol {
                         if pending_found.len() + res.found.len() < 200 {
-                            pending_found.push(FoundViolation { run: r, violation: v, scenario: sc.clone() });
+                            pending_found.push(FoundViolation { run: r, violation: v, scenario: sc.clone(), release: !cfg!(debug_assertions) });
                         }
                     }
                 }
@@ -139,12 +158,15 @@ pub enum ChildOutcome {
 }
 
 pub fn exec_child(prop: &str, sc: &serde_json::Value, scratch: &Path) -> ChildOutcome {
+    exec_child_with(prop, sc, scratch, false)
+}
+pub fn exec_child_with(prop: &str, sc: &serde_json::Value, scratch: &Path, release: bool) -> ChildOutcome {
     let _ = std::fs::create_dir_all(scratch);
     let f = scratch.join(format!("one-{}-{:x}.json", std::process::id(), crate::kernel::rng::fnv1a(sc.to_string().as_bytes())));
     if let Err(e) = std::fs::write(&f, serde_json::to_vec(sc).unwrap()) {
         return ChildOutcome::HarnessError(format!("write {f:?}: {e}"));
     }
-    let out = run_with_timeout(Command::new(exe()).arg("exec-one").arg(prop).arg(&f).stdin(Stdio::null()).stderr(Stdio::null()).stdout(Stdio::piped()), Duration::from_secs(60));
+    let out = run_with_timeout(Command::new(exe_for(release)).arg("exec-one").arg(prop).arg(&f).stdin(Stdio::null()).stderr(Stdio::null()).stdout(Stdio::piped()), Duration::from_secs(60));
     let _ = std::fs::remove_file(&f);
     match out {
         Err(e) if e == "timeout" => ChildOutcome::Died("no-progress(killed by watchdog)".into()),
@@ -242,8 +264,8 @@ pub fn exec_one_cmd(prop: &str, file: &str) -> i32 {
 /// Does the scenario still violate (property, invariant)? Always evaluated in a
 /// child process under a watchdog, so that a candidate that crashes or does not
 /// terminate cannot take the supervisor with it.
-fn still_fails(prop: &str, invariant: &str, sc: &serde_json::Value, scratch: &Path) -> bool {
-    match exec_child(prop, sc, scratch) {
+fn still_fails(prop: &str, invariant: &str, sc: &serde_json::Value, scratch: &Path, release: bool) -> bool {
+    match exec_child_with(prop, sc, scratch, release) {
         ChildOutcome::Violations(v, _) => v.iter().any(|x| x.invariant == invariant),
         ChildOutcome::Died(how) => (invariant == "process-death" && !how.contains("watchdog")) || (invariant == "run-terminates" && how.contains("watchdog")),
         ChildOutcome::HarnessError(_) => false,
@@ -256,6 +278,7 @@ pub fn minimise(
     sc: serde_json::Value,
     budget: Duration,
     scratch: &Path,
+    release: bool,
 ) -> (serde_json::Value, bool) {
     let t0 = Instant::now();
     let mut cur = sc;
@@ -273,7 +296,7 @@ pub fn minimise(
             if c == cur {
                 continue;
             }
-            if still_fails(prop, invariant, &c, scratch) {
+            if still_fails(prop, invariant, &c, scratch, release) {
                 cur = c;
                 continue 'outer;
             }
@@ -326,7 +349,8 @@ impl Known {
 fn spawn_worker(prop: &str, tier: Tier, seed: u64, w: u64, nw: u64, total: u64, dir: &Path, skip: &BTreeSet<u64>) -> std::process::Child {
     let skip_s = skip.iter().map(|x| x.to_string()).collect::<Vec<_>>().join(",");
     let errf = std::fs::OpenOptions::new().create(true).append(true).open(dir.join(format!("stderr-{w}.log"))).expect("stderr file");
-    Command::new(exe())
+    let use_release = std::env::var_os("SIM_MIX_RELEASE").is_some() && w % 2 == 1 && release_exe().is_some();
+    Command::new(if use_release { release_exe().unwrap() } else { exe() })
         .arg("worker")
         .arg(prop)
         .arg(tier.name())
@@ -441,6 +465,7 @@ pub fn run_slices(prop: &str, tier: Tier, seed: u64, total: u64, nw: u64, dir: &
                             detail: format!("worker process ended with {how} while executing run {r}"),
                         },
                         scenario: sc,
+                        release: std::env::var_os("SIM_MIX_RELEASE").is_some() && w % 2 == 1 && release_exe().is_some(),
                     });
                     skips[w].insert(r);
                     children[w] = Some(spawn_worker(prop, tier, seed, w as u64, nw, total, dir, &skips[w]));
@@ -531,7 +556,7 @@ pub fn check(prop: &str, tier: Tier) -> i32 {
         }
         let orig_ops = engines::size(prop, &f.scenario);
         // confirm first, in a fresh process
-        let confirmed = still_fails_fresh(prop, &inv, &f.scenario, &dir);
+        let confirmed = still_fails(prop, &inv, &f.scenario, &dir, f.release);
         if !confirmed {
             println!("HARNESS-ERROR violation of {prop}/{inv} found in run {} does not reproduce in a fresh process; treating as harness nondeterminism", f.run);
             let _ = std::fs::remove_dir_all(&dir);
@@ -541,16 +566,13 @@ pub fn check(prop: &str, tier: Tier) -> i32 {
         let (min_sc, complete) = if spent >= budget_total {
             (f.scenario.clone(), false)
         } else {
-            minimise(prop, &inv, f.scenario.clone(), Duration::from_secs(((budget_total - spent) / 2).clamp(3, (budget_total / ngroups.min(4)).max(5))), &dir)
+            minimise(prop, &inv, f.scenario.clone(), Duration::from_secs(((budget_total - spent) / 2).clamp(3, (budget_total / ngroups.min(4)).max(5))), &dir, f.release)
         };
         // determine the violation text of the minimised scenario
         let mut v = f.violation.clone();
-        if !engines::crash_class(&inv) {
-            let mut st = Stats::default();
-            if let Ok((vs, _, _)) = exec_here(prop, &min_sc, &mut st, false) {
-                if let Some(x) = vs.into_iter().find(|x| x.invariant == inv) {
-                    v = x;
-                }
+        if let ChildOutcome::Violations(vs, _) = exec_child_with(prop, &min_sc, &dir, f.release) {
+            if let Some(x) = vs.into_iter().find(|x| x.invariant == inv) {
+                v = x;
             }
         }
         if let Some(text) = known.matches(&v) {
@@ -568,6 +590,7 @@ pub fn check(prop: &str, tier: Tier) -> i32 {
             minimised: complete,
             original_ops: orig_ops,
             ops: engines::size(prop, &min_sc),
+            profile: if f.release { "release".into() } else { "debug".into() },
             scenario: min_sc,
         };
         let _ = std::fs::create_dir_all(&replay_dir);
@@ -584,6 +607,11 @@ pub fn check(prop: &str, tier: Tier) -> i32 {
     if let Some(o) = extra.as_object_mut() {
         o.insert("violations_by_invariant".into(), serde_json::to_value(&per_invariant_count).unwrap());
         o.insert("workers".into(), serde_json::json!(nw));
+        let mixed = std::env::var_os("SIM_MIX_RELEASE").is_some() && release_exe().is_some();
+        o.insert(
+            "build_profiles".into(),
+            if mixed { serde_json::json!(["debug (even workers)", "release (odd workers)"]) } else if cfg!(debug_assertions) { serde_json::json!(["debug"]) } else { serde_json::json!(["release"]) },
+        );
     }
     let evp = format!("{}/evidence/{prop}.json", verif_root());
     if let Err(e) = write_evidence(&evp, meta, tier, seed, &stats, wall, n_viol, n_known, extra) {
@@ -605,14 +633,6 @@ pub fn check(prop: &str, tier: Tier) -> i32 {
         1
     } else {
         0
-    }
-}
-
-fn still_fails_fresh(prop: &str, inv: &str, sc: &serde_json::Value, scratch: &Path) -> bool {
-    match exec_child(prop, sc, scratch) {
-        ChildOutcome::Violations(v, _) => v.iter().any(|x| x.invariant == inv),
-        ChildOutcome::Died(how) => (inv == "process-death" && !how.contains("watchdog")) || (inv == "run-terminates" && how.contains("watchdog")),
-        ChildOutcome::HarnessError(_) => false,
     }
 }
 
@@ -642,7 +662,7 @@ pub fn replay(file: &str, verbose: bool) -> i32 {
         }
     };
     let scratch = PathBuf::from(format!("{}/work/replay-{}", verif_root(), std::process::id()));
-    let out = exec_child(&rf.property, &rf.scenario, &scratch);
+    let out = exec_child_with(&rf.property, &rf.scenario, &scratch, rf.profile == "release");
     let _ = std::fs::remove_dir_all(&scratch);
     if verbose && !engines::crash_class(&rf.invariant) {
         let mut st = Stats::default();
